@@ -20,7 +20,8 @@ if os.environ.get('PYTHONHASHSEED') is None:
     # fixed hash seed: the harness does not depend on it (self-test proves
     # that), this merely removes one variable from any bug report
     os.environ['PYTHONHASHSEED'] = '0'
-    os.execv(sys.executable, [sys.executable] + ['-O'] * min(sys.flags.optimize, 1) + sys.argv)
+    os.execv(sys.executable, [sys.executable] + ['-O'] * min(sys.flags.optimize, 1) +
+             [x for w in sys.warnoptions for x in ('-W', w)] + sys.argv)
 
 from tapesim import seams                       # noqa: E402  (pins the clock)
 from tapesim import core                        # noqa: E402
@@ -36,6 +37,7 @@ def fresh_digests(pid, tier, seed, idxs, hashseed):
     env = dict(os.environ, PYTHONHASHSEED=str(hashseed), VERIF_SEED=str(seed))
     out = subprocess.run(
         [sys.executable] + ['-O'] * min(sys.flags.optimize, 1) +
+        [x for w in sys.warnoptions for x in ('-W', w)] +
         [os.path.join(HERE, 'check.py'), pid, '--tier', tier,
          '--digest', ','.join(str(i) for i in idxs)],
         env=env, capture_output=True, text=True, timeout=900)
@@ -45,9 +47,10 @@ def fresh_digests(pid, tier, seed, idxs, hashseed):
 
 
 def optimized_pass(pid, tier, seed, jobs, total, budget_s):
-    """The first runs of the batch once more, in an interpreter started with -O
-    (`assert` statements are stripped): the interpreter configuration an embedder
-    chooses must not move a verdict.  Returns (exit code, output, evidence)."""
+    """The first runs of the batch once more, in an interpreter started with
+    `-O -W error` (`assert` statements are stripped; every warning raises): the
+    interpreter configuration an embedder chooses must not move a verdict.
+    Returns (exit code, output, evidence)."""
     import shutil
     import tempfile
     n = max(200, total // 8)
@@ -57,7 +60,7 @@ def optimized_pass(pid, tier, seed, jobs, total, budget_s):
                    VERIF_BUDGET_S=str(max(20.0, budget_s / 4)), VERIF_SEED=str(seed),
                    VERIF_JOBS=str(jobs))
         env.pop('PYTHONOPTIMIZE', None)
-        out = subprocess.run([sys.executable, '-O', os.path.join(HERE, 'check.py'), pid,
+        out = subprocess.run([sys.executable, '-O', '-W', 'error', os.path.join(HERE, 'check.py'), pid,
                               '--tier', tier, '--runs', str(n)],
                              env=env, capture_output=True, text=True, timeout=budget_s * 3 + 900)
         ev = {}
@@ -219,14 +222,14 @@ def run_check(pid, tier, seed, jobs, budget_s, runs_override=None):
     if sys.flags.optimize == 0 and not opt_child and os.environ.get('VERIF_OPT_PASS', '1') != '0':
         rc, out, oev = optimized_pass(pid, tier, seed, jobs, total, budget_s)
         if rc not in (0, 1):
-            raise HarnessError('python -O pass failed (exit %d): %s' % (rc, out[-1500:]))
+            raise HarnessError('python -O -W error pass failed (exit %d): %s' % (rc, out[-1500:]))
         optp = {'runs': oev.get('coverage', {}).get('runs', 0),
                 'evaluations': oev.get('coverage', {}).get('evaluations', 0),
                 'violations': oev.get('violations', 0), 'wall_s': oev.get('wall_s')}
         if rc == 1:
             for line in out.splitlines():
                 if line.startswith('violation '):
-                    out_lines.append('under python -O: ' + line)
+                    out_lines.append('under python -O -W error: ' + line)
                 elif line.startswith('VIOLATION '):
                     out_lines.append(line)
             status = 1
